@@ -106,7 +106,8 @@ func (e *PathMatchExpression) expandPaths(sub *PathMatchExpression) {
 	for i, dest := range e.paths {
 		for j, src := range sub.paths {
 			k := (i * len(sub.paths)) + j
-			expanded[k] = append(dest, src...)
+			// copy, appending to dest would share its backing array between paths
+			expanded[k] = append(append(segments{}, dest...), src...)
 		}
 	}
 	e.paths = expanded
@@ -185,9 +186,41 @@ func (e *PathMatchExpression) PathMatches(base *Path, candidate *Path) bool {
 	return false
 }
 
+// PathLeadsTo returns true if candidate, after you subtract the base, is a proper
+// beginning of one of the paths, i.e. a container one has to pass thru to reach a
+// selected node.
+func (e *PathMatchExpression) PathLeadsTo(base *Path, candidate *Path) bool {
+	j := (candidate.Len() - base.Len()) - 1
+	if j < 0 {
+		return false
+	}
+	for _, segs := range e.paths {
+		if j >= len(segs)-1 {
+			continue
+		}
+		p := candidate
+		matches := true
+		for i := j; i >= 0 && p != nil; i-- {
+			if p.Meta.Ident() != segs[i] {
+				matches = false
+				break
+			}
+			p = p.Parent
+		}
+		if matches && p != nil && p.EqualNoKey(base) {
+			return true
+		}
+	}
+	return false
+}
+
 func (e *PathMatchExpression) match(segs segments, base *Path, candidate *Path) bool {
 	p := candidate
 	j := (candidate.Len() - base.Len()) - 1
+	if j < len(segs)-1 {
+		// candidate is above the selected node, see PathLeadsTo
+		return false
+	}
 
 	// start navigation at the end of the tail as it would likely be more efficient the longer
 	// the path
